@@ -100,7 +100,7 @@ func runC12(c *engine.Ctx) {
 	// ---- dimensions
 	anon := p.Draw(3, "cfg:anon") == 0
 	var dims []string
-	dimPool := []string{"os", "arch", "go-version", "a.b", "x_1", "A", "0", "-"}
+	dimPool := []string{"os", "arch", "go-version", "a.b", "x_1", "A", "0", "-", ".hidden", ".", "a..b", "os.", "-.-"}
 	if anon {
 		dims = []string{""}
 	} else {
